@@ -23,6 +23,7 @@ func init() {
 			}},
 			{Name: "GUARD", Doc: "entity parsers return nil only for absent wire fields", MinInstances: 2, Run: runParserGuards},
 			{Name: "LINK", Doc: "the links between trips and vehicles are part of the order-independent result: link discipline as in C04 (links stored after the entity loop, from association tables)", MinInstances: 5, Run: runLinkRules},
+			{Name: "TID", Doc: "a start time / start date of a trip identifier is dropped only when absent or not matching its pattern (hours past 23 are valid): two runs of one trip_id stay two trips", MinInstances: 2, Run: func(c *Ctx) { runStartAcceptance(c, "TID") }},
 			{Name: "EXTV", Doc: "an extension that derives the vehicle of an entity gives the trip update and the vehicle position of one trip the same descriptor (they merge under it)", MinInstances: 1, Run: runSameVehicleForBothEntities},
 		},
 	})
@@ -34,6 +35,7 @@ func init() {
 		Rules: []Rule{
 			{Name: "A3", Doc: "identifier fields of trips and vehicles are bound to their own wire fields: which entities are one vehicle (and get linked) is decided on id, label and licence plate as sent", MinInstances: 35, Run: runWireTable},
 			{Name: "LINK", Doc: "trip<->vehicle link discipline", MinInstances: 5, Run: runLinkRules},
+			{Name: "TID", Doc: "a start time / start date of a trip identifier is dropped only when absent or not matching its pattern (hours past 23 are valid): trips that differ in start time keep separate entries and separate vehicles", MinInstances: 2, Run: func(c *Ctx) { runStartAcceptance(c, "TID") }},
 			{Name: "MERGE", Doc: "the objects the cross pointers lead to are the accumulators, one per whole identifier: every parsed trip / identified vehicle is merged into the entry looked up under its own id (a shortened or re-derived key lets two vehicles share one entry, and both trips then point at the same vehicle)", MinInstances: 7, Run: runMergeRules},
 			{Name: "GUARD", Doc: "entity parsers return nil only for absent wire fields", MinInstances: 2, Run: runParserGuards},
 		},
